@@ -30,9 +30,9 @@ PROPS = {
                 "plus distinct alternative-encoding tokens",
     },
     "C12": {
-        "lean": ["AriVerif.Props.C12"],
-        "gen": ["KeepAlive"],
-        "streams": [s_keepalive.stream, s_sender.stream_e2e],
+        "lean": ["AriVerif.Props.C12", "AriVerif.Props.C12S"],
+        "gen": ["KeepAlive", "Version"],
+        "streams": [s_keepalive.stream, s_init.stream_init_keepalive, s_sender.stream_e2e],
         "trusted": [KERNEL, HARNESS, "harness/extract.py (Python-subset -> Lean translator) for Gen/KeepAlive.lean, "
                     "mitigated by the grid differential of the generated definitions against the real method",
                     "modelled, not verified: float arithmetic of CPython (the model is exact over Rat; the grid uses "
@@ -162,7 +162,7 @@ PROPS = {
                 "sampled; written lines compared with the enqueue order; non-trivial = scenario with pipelined requests",
     },
     "C10": {
-        "lean": ["AriVerif.Props.C10"],
+        "lean": ["AriVerif.Props.C10", "AriVerif.Props.C10S"],
         "gen": ["Version"],
         "streams": [s_dispatch.stream],
         "trusted": [KERNEL, HARNESS, "Dispatch.lean (classify / act) is hand-written and tied by the reader-dispatch differential only: the real "
@@ -208,7 +208,7 @@ PROPS = {
                 "library threads and state after every chunk; non-trivial = scenario with more than one request or concurrent adapter calls",
     },
     "C18": {
-        "lean": ["AriVerif.Props.C18"],
+        "lean": ["AriVerif.Props.C18", "AriVerif.Props.C10S"],
         "gen": ["Pool"],
         "streams": [s_conc.meta_stream(["C18"], "meta-cosim"), s_conc.data_stream(["C18", "C02"], "data-cosim-threads"), s_init.stream_pool],
         "trusted": [KERNEL, HARNESS, "the scheduler shim (harness/shim.py): Lock/RLock, Queue, Event, Thread, ThreadPoolExecutor (FIFO work queue, <= n running), scripted socket, virtual clock; line-level preemption via sys.settrace in the fine-grained streams",
